@@ -1359,8 +1359,23 @@ class PointsTo:
             if fr is not self._driver:
                 self.run_frame(fr)
         self.recording = False
+        self.writes = self._merge_events(self.writes)
+        self.substores = self._merge_events(self.substores)
+        self.reads = self._merge_events(self.reads)
         self._index_frames()
         return self
+
+    @staticmethod
+    def _merge_events(evs: list) -> list:
+        """One event per (function, AST node, op): the analysis visits a node once per calling context."""
+        merged: dict[tuple, WriteEvent] = {}
+        for e in evs:
+            k = (e.func, id(e.node), e.op, e.kind)
+            if k in merged:
+                merged[k].dst = frozenset(merged[k].dst | e.dst)
+            else:
+                merged[k] = e
+        return list(merged.values())
 
     # ================================================================== queries
     def _index_frames(self) -> None:
